@@ -315,3 +315,40 @@ def c20(tier, seed):
                            "atoi_non_numbers", "env_values_in_range", "env_values_clamped", "env_unparsable_default",
                            "env_smoke_workloads", "affinity_valid", "affinity_invalid", "affinity_ids_compared"]
     return c
+
+
+@prop("C16")
+def c16(tier, seed):
+    c = Check("C16", tier, seed)
+    q = tier == "quick"
+    c.rule = ("each case = one scenario: 1-200 keys (with/without destructor), 2-64 units (named/unnamed ULTs and tasklets + "
+              "the primary ULT) doing random set/get through ABT_key_*, ABT_self_*_specific and ABT_thread_*_specific on "
+              "their own keys while partner ULTs set a disjoint key range on them from other streams (incl. a rendezvous so "
+              "both first setters race to create the table), join/revive/free, compared with a per-unit reference map and a "
+              "destructor ledger; one process per ABT_KEY_TABLE_SIZE in {1,2,4,8,64,1024,default}; non-trivial = chains "
+              "longer than the table (new key-table block allocated) ; distinct = distinct (variant, delay, table size, "
+              "configuration signature)")
+    c.assumptions = ["owner and partner never touch the same key concurrently (the property quantifies over sets by another "
+                     "unit on other keys)"]
+    sizes = ["1", "2", "4", "8", "64", "1024", None, "3"]
+    profiles = ["off", hammer("KTABLE_CREATED", "KTABLE_SET_BEFORE_LOCK"), "uniform", hammer("KTABLE_CREATED")]
+    n = 8 if q else 64
+    for i, s in enumerate(seeds(seed, n)):
+        env = {} if sizes[i % 8] is None else {"ABT_KEY_TABLE_SIZE": sizes[i % 8]}
+        c.add(Run("h_key", "mon", ["--seed", s, "--scenarios", 6 if q else 16, "--ops", 300 if q else 1200,
+                                   "--delay", profiles[i % 4], "--watchdog", 60 if q else 300], env=env, weight=4,
+                  tag="mon%d" % i))
+    for i, s in enumerate(seeds(seed, 2 if q else 8, salt=1)):
+        c.add(Run("h_key", "asan", ["--seed", s, "--scenarios", 4, "--ops", 150, "--max-units", 32,
+                                    "--delay", profiles[(i + 1) % 4], "--watchdog", 60],
+                  env={"ABT_KEY_TABLE_SIZE": sizes[(i * 3) % 6]}, weight=4, tag="asan%d" % i))
+    for i, s in enumerate(seeds(seed, 2 if q else 8, salt=2)):
+        c.add(Run("h_key", "tsan", ["--seed", s, "--scenarios", 3, "--ops", 100, "--max-units", 24,
+                                    "--delay", profiles[(i + 1) % 4], "--watchdog", 60],
+                  env={"ABT_KEY_TABLE_SIZE": sizes[(i * 3 + 1) % 6]}, weight=4, tag="tsan%d" % i))
+    c.nontrivial = lambda r: has_cov(r, "KTABLE_NEW_BLOCK")
+    c.required_points = ["KTABLE_CREATED", "KTABLE_NEW_BLOCK", "KTABLE_SET_BEFORE_LOCK"]
+    c.required_counters = ["sets", "gets_value", "gets_null", "destructor_calls", "revived_units", "sets_by_other_unit",
+                           "keys_without_destructor", "units_named_ult", "units_unnamed_ult", "units_named_tasklet",
+                           "units_unnamed_tasklet", "units_primary"]
+    return c
